@@ -78,6 +78,8 @@ def differential_evolution(
 
     # Initialize population (use provided initial_population or random)
     pop_size = max(population_size, 4)  # Need at least 4 for mutation
+    if initial_population is not None:
+        pop_size = max(pop_size, len(initial_population))  # every start point the caller supplies takes part
     population: list[list[float]] = []
 
     if initial_population is not None:
